@@ -203,17 +203,16 @@ class ProofState():
             prf.items[cur_id.last()] = item
         self.check_proof(compute_only=True)
 
-        # Test if the goals are already proved:
-        for item in new_prf.items:
+        # Test if the goals are already proved, resolve trivial subgoals.
+        # The new lines are visited from the last to the first: removing a
+        # line renumbers the lines after it, so the identifiers of the lines
+        # still to be visited stay valid.
+        for item in reversed(new_prf.items):
             if item.rule == 'sorry':
                 new_id = self.find_goal(self.get_proof_item(item.id).th, item.id)
                 if new_id is not None:
                     self.replace_id(item.id, new_id)
-
-        # Resolve trivial subgoals
-        for item in new_prf.items:
-            if item.rule == 'sorry':
-                if logic.trivial_macro().can_eval(item.th.prop):
+                elif logic.trivial_macro().can_eval(item.th.prop):
                     self.set_line(item.id, 'trivial', args=item.th.prop)
 
     def parse_steps(self, steps):
